@@ -216,7 +216,7 @@ func zz18Do(kv chord.KV, o *zz18Op) {
 }
 
 // zz18Program: an arbitrary program of n operations over the alphabet alpha (0: Put/Get/Delete, 1: Append/Remove/
-// Contains, 2: all six, 3: lease programs — n is ignored: Acquire | Acquire-then-Release-own | Release(arbitrary)).
+// Contains, 2: all six, 4: Put/Append only, 3: lease programs — n is ignored: Acquire | Acquire-then-Release-own | Release(arbitrary)).
 func zz18Program(alpha, n int) []*zz18Op {
 	if alpha == 3 {
 		switch rt.Choose("lease-program", rt.Bound("LEASE_PROGRAMS")) {
@@ -235,6 +235,8 @@ func zz18Program(alpha, n int) []*zz18Op {
 			k = rt.Choose("op", 3)
 		case 1:
 			k = 3 + rt.Choose("op", 3)
+		case 4:
+			k = []int{zz18Put, zz18Append}[rt.Choose("op", 2)]
 		default:
 			k = rt.Choose("op", 6)
 		}
